@@ -232,3 +232,4 @@ TEXT["C20"]["level"] += (" Props/C20PE states it for the encoder as a store-oper
 TEXT["C08"]["level"] += (" The multi-key ranged get (get_partial_values, batched by key) is called on every store kind with present and absent keys and predicted request by request.")
 TEXT["C04"]["level"] += (" A third of the fill-heavy cases also run as sync/async twin requests (the asynchronous whole-chunk and multi-chunk writes decide about elision in their own copies of the code).")
 TEXT["C08"]["level"] += (" The batching loop itself is modelled as written (Model/MultiGet) and proved equal to the request-by-request specification for every store content and request list (Props/C08Multi: batched_eq_reqwise).")
+TEXT["C15"]["level"] += (" A family with a checksum directly over an odd number of payload bytes (one-byte elements) covers the separate last-byte path of the word-based checksums.")
